@@ -17,4 +17,13 @@ PROPS = {
         modelled=["node identity in the cycle check is the graph id (the code keys its visited map by instance id; the harness never gives two nodes the same instance id)"],
         assumptions=["reference decision in the harness (Kahn) is independent of both model and code"],
     ),
+    "C19": dict(
+        families=[dict(name="store")],
+        search=True,
+        refuted=["pinned code: BatchUpdateDagIns swallowed every write error (repaired by fix commit 5a6e720; model follows the repaired code)"],
+        modelled=["entity fields other than id/worker/status/reason/cmd/shareData (instances) and id/dagInsId/taskId/dependOn/timeoutSecs/status/reason/traces (tasks) are carried as one opaque value that create/replace store and get/list return",
+                  "timestamps are never compared; time filters are exercised only when every stored updatedAt is more than 1 s away from the threshold",
+                  "sonyflake id layout (time<<24 | sequence<<16 | machine) is modelled by flake_id; the correspondence checks id mod 2^16 = worker number on ids produced by child processes"],
+        assumptions=["list results are compared in store natural order by the correspondence and as multisets by the monitor"],
+    ),
 }
